@@ -48,7 +48,12 @@ pub fn run_iset(args: &[Sx]) -> Sx {
                     emit(g)
                 }
                 "len" => emit(a(s.len())),
-                "iter" => emit(tag("it", s.iter().map(sx_region).collect())),
+                "iter" => {
+                    let v: Vec<Sx> = s.iter().map(sx_region).collect();
+                    let v2: Vec<Sx> = s.clone().into_iter().map(|g| sx_region(&g)).collect();
+                    if v != v2 { emit(a("ORACLE-FAIL:iter-and-into_iter-disagree")) }
+                    emit(tag("it", v))
+                }
                 "find" => emit(tag("h", s.find(&q(o)).map(|g| sx_region(&g)).collect())),
                 "findidx" => emit(tag("h", s.find_index_of(&q(o)).map(a).collect())),
                 "findfull" => emit(tag("h", s.find_full(&q(o)).map(|(g, i)| Sx::L(vec![sx_region(&g), a(*i)])).collect())),
